@@ -1,5 +1,5 @@
 import logging
-from typing import Optional
+from typing import Any, Optional
 
 from dliswriter.utils.internal.struct_writer import write_struct_ascii, write_struct_ident
 from dliswriter.utils.internal.internal_enums import EFLRType
@@ -83,6 +83,16 @@ class EFLRSet(LogicalRecord):
             raise TypeError(f"Expected an instance of {self.item_type}; got {type(child)}: {child}")
 
         self._eflr_item_list.append(child)
+
+        # the registry (of a logical file) through which the item is being added: a set found under a name in a registry belongs
+        # to that logical file only as far as it holds items added through it (a rejected add_* call adds none)
+        child._added_via = getattr(self, 'sibling_sets', None)
+
+    def get_items_added_via(self, registry: Any) -> list[EFLRItem]:
+        """Return the items of this set which were added through the given registry (or outside any registry)."""
+
+        return [item for item in self._eflr_item_list
+                if getattr(item, '_added_via', None) is None or item._added_via is registry]
 
     def unregister_item(self, child: EFLRItem) -> None:
         """Remove a child EFLRItem (e.g. one whose initialisation failed) from this EFLRSet."""
